@@ -6,7 +6,7 @@ import io
 from .. import core
 
 ID = 'C09'
-RUNS = {'quick': 1500, 'thorough': 50000}
+RUNS = {'quick': 1200, 'thorough': 50000}
 WALL_CAP = {'quick': 70, 'thorough': 1800}
 BLOCK = 10
 RULE = ('runs = the bundled builders SIM, SIMEX1, PC (use_book_exogenous=False) and the hand-coded ModelSIMiterative, '
